@@ -100,6 +100,11 @@ def run(tier='quick'):
                         'count (rule S9 of C03)', floor=2)
     from . import c03 as _c03
     _c03.domain_symmetry(prog, chk, L8, codec.all_grammars(prog))
+    from . import extra
+    L9 = chk.rule('L9', 'the decompressor returns exactly the bytes inflate() produced (result sized from the stream\'s output '
+                        'counters or a mismatch rejected), so that what an independent decoder reads is what the library reads',
+                  floor=1)
+    extra.inflated_length_is_result_length(prog, chk, L9)
     return chk.finish(
         'Static comparison of the byte layout the code implements with an independent declarative layout '
         'table: the bit/byte mapping of the 14 primitives is derived from their AST, the ordered '
